@@ -39,6 +39,13 @@ func StartChild(bin, runDir, name string, extraEnv []string, onMark func(ctl.Mar
 		return nil, err
 	}
 	cmd := exec.Command(bin)
+	// VERIF_WRAP=<program and args> in extraEnv runs the child under a wrapper (e.g. strace as a delay injector)
+	for _, e := range extraEnv {
+		if strings.HasPrefix(e, "VERIF_WRAP=") {
+			parts := strings.Fields(strings.TrimPrefix(e, "VERIF_WRAP="))
+			cmd = exec.Command(parts[0], append(parts[1:], bin)...)
+		}
+	}
 	cmd.Env = append(os.Environ(), "VERIF_CTL="+l.Addr().String(), "VERIF_NAME="+name)
 	cmd.Env = append(cmd.Env, extraEnv...)
 	cmd.Stdout = lf
